@@ -113,6 +113,15 @@ def worker(argv):
     os.makedirs(outdir, exist_ok=True)
     corpus = os.path.join(outdir, "corpus")
     os.makedirs(corpus, exist_ok=True)
+    # Starting corpus: random byte strings of several lengths drawn from a PRNG seeded by the -seed flag. Hypothesis itself is
+    # not instrumented, so inputs it rejects (too short for the strategy) give libFuzzer no gradient: from an empty corpus it
+    # would keep mutating one-byte inputs that never reach the library.
+    import random as _random
+    m_ = [f for f in flags if f.startswith("-seed=")]
+    rnd_ = _random.Random(int(m_[0].split("=")[1]) if m_ else 1)
+    for k_, n_ in enumerate([256, 1024, 4096, 16384] * 4):
+        with open(os.path.join(corpus, f"seed{k_:02d}"), "wb") as fh:
+            fh.write(bytes(rnd_.getrandbits(8) for _ in range(n_)))
     flush()
     atheris.Setup([sys.argv[0]] + flags + [f"-artifact_prefix={outdir}/", corpus], target)
     atheris.Fuzz()
